@@ -1168,6 +1168,26 @@ def t_assign(ex, st, o, args, kwargs, node):
     return st.alloc(Tab(t.n, cols, t.idx, t.elts))
 
 
+@tm("rename")
+def t_rename(ex, st, o, args, kwargs, node):
+    t = st.get(o)
+    if args or set(kwargs) != {"columns"}:
+        raise Unsupported("DataFrame.rename(%s)" % sorted(kwargs))
+    m = st.get(kwargs["columns"])
+    if not isinstance(m, DictV) or not all(isinstance(k, str) and isinstance(st.get(v), str) for k, v in m.d.items()):
+        raise Unsupported("DataFrame.rename(columns=<symbolic>)")
+    used(ex, "DataFrame.rename(columns=mapping) renames the listed columns, data unchanged")
+    ren = {k: st.get(v) for k, v in m.d.items()}
+    cols, elts = {}, {}
+    for c, f in t.cols.items():
+        nc = ren.get(c, c)
+        if nc in cols:
+            raise Unsupported("rename produces duplicate column names")
+        cols[nc] = f
+        elts[nc] = t.elts.get(c)
+    return st.alloc(Tab(t.n, cols, t.idx, elts))
+
+
 @tm("reindex")
 def t_reindex(ex, st, o, args, kwargs, node):
     t = st.get(o)
@@ -1536,3 +1556,38 @@ def v_replace(ex, st, o, args, kwargs, node):
             raise Unsupported("Series.replace on a nullable column")
         return merge_val(_b(scalar_compare(ex, st, "Eq", x, a)), b, x)
     return st.alloc(Vec(v.n, at, idx=v.idx, elt=v.elt, kind="series"))
+
+
+@builtin("pandas.read_csv")
+def pd_read_csv(ex, st, args, kwargs, node):
+    """pd.read_csv(file, names=[...], ...): what pandas parsed is an unconstrained table with the named columns (their
+    types come from the contract's ghost `csv_types`); it is remembered as the ghost value `parsed_` so that clauses can
+    say how the reader transforms it.  Tokenising the text is pandas' business (assumed)."""
+    c = ex.frames[0].contract if ex.frames else None
+    types = (c.ghost.get("csv_types") if c else None) or {}
+    names = st.get(kwargs["names"]) if "names" in kwargs else None
+    if isinstance(names, ListV):
+        names = [st.get(x) for x in names.items]
+    if names is None:
+        names = list(types)
+    if not names or not all(isinstance(x, str) and x in types for x in names):
+        raise Unsupported("read_csv without typed column names (contract ghost csv_types)")
+    used(ex, "pd.read_csv yields some table with the requested columns (its content is unconstrained)")
+    t = ex.fresh_value(dsl.TabT(index="range", **{n: types[n] for n in names}), "parsed", st)
+    st.ghost = dict(st.ghost)
+    st.ghost["view_parsed"] = st.get(t)       # the value as parsed (later in-place edits of the frame do not show)
+    return t
+
+
+@tm("fillna")
+def t_fillna(ex, st, o, args, kwargs, node):
+    """DataFrame.fillna({col: value}, inplace=True) on columns the model keeps non-missing: no change"""
+    t = st.get(o)
+    m = st.get(args[0]) if args else None
+    if not isinstance(m, DictV) or st.get(kwargs.get("inplace", False)) is not True or set(kwargs) - {"inplace"}:
+        raise Unsupported("DataFrame.fillna signature")
+    for cn in m.d:
+        if cn in t.cols and isinstance(t.cols[cn](z3.IntVal(0)), NF):
+            raise Unsupported("fillna on a nullable column")
+    used(ex, "fillna on text columns: missing text is not modelled (columns are total), so fillna changes nothing")
+    return None
